@@ -40,7 +40,8 @@ type c12Dest struct {
 	C  int
 }
 
-func C12_Jobs() []string {
+func C12_Jobs() []string { return append(c12_jobs0(), "json-records") }
+func c12_jobs0() []string {
 	var out []string
 	for _, m := range []string{"parse", "validate"} {
 		for _, s := range []string{"top-struct", "struct-in-slice", "struct-behind-ptr", "nested-struct", "slice-in-struct", "custom-in-struct", "primitive", "named-primitives", "reentrant"} {
@@ -55,6 +56,10 @@ func C12_Jobs() []string {
 func C12_Covers() []string { return []string{"callback-ran"} }
 
 func C12_Run(job string) {
+	if job == "json-records" {
+		jrCheck("C12")
+		return
+	}
 	a, b, c, _ := split3(job)
 	k := v.Int("ctxval")
 	ctxOK := func(ctx z.Ctx) bool { return v.And(eqAny(ctx.Get("k"), k), ctx.Get("other") == nil) }
@@ -767,6 +772,38 @@ func C19_Run(job string) {
 				d.L[0] = m + 1
 				v.Assert(in.L[0] == y, "C19:destination-aliases-input")
 			}
+			// fields promoted through embedded pointers, some of them nil: reading them allocates nothing
+			// inside the caller's value
+			type C19Deep struct{ Z int }
+			type C19Mid struct {
+				*C19Deep
+				Y int
+			}
+			type C19Outer struct {
+				*C19Mid
+				W int
+			}
+			mid := &C19Mid{Y: y}
+			byPtr := v.Choice("input-by-pointer", 2) == 1
+			outer := C19Outer{C19Mid: mid, W: x}
+			var dz struct{ W, Y, Z int }
+			sc := z.Struct(z.Schema{"W": z.Int(), "Y": z.Int(), "Z": z.Int().Required()})
+			var e1 z.ZogIssueMap
+			if byPtr {
+				e1 = sc.Parse(&outer, &dz)
+			} else {
+				e1 = sc.Parse(outer, &dz)
+			}
+			v.Assert(mid.C19Deep == nil && outer.C19Mid == mid && mid.Y == y && outer.W == x, "C19:input-modified")
+			// ... and the same input gives the same result on a second use
+			var dz2 struct{ W, Y, Z int }
+			var e2 z.ZogIssueMap
+			if byPtr {
+				e2 = sc.Parse(&outer, &dz2)
+			} else {
+				e2 = sc.Parse(outer, &dz2)
+			}
+			v.Assert(len(e1) == len(e2) && len(e1["Z"]) == len(e2["Z"]) && dz == dz2, "C19:schema-behaves-differently-on-later-use")
 		case "string-lists":
 			// typed string lists with blank entries at every position (top level, struct field, nested,
 			// as a slice default): the input and the default are left as they were
